@@ -93,7 +93,11 @@ def run(ctx):
     log("histories: %d plain, %d ending in a fork switch, %d ending in overlapping calls" % (len(plain), len(forks), len(concs)))
     hists = plain + (forks[:700] if quick else forks[:12000]) + (concs[:900] if quick else concs[:12000])
     drv = ctx.build("c19")
-    shards = 8 if quick else 16
+    # one driver process per chunk of histories: every history opens fresh stores (and the node's
+    # logger set-up leaks two file descriptors per initialisation), so a process stays well below
+    # a file-descriptor limit of 1024
+    chunk = 350
+    shards = max(8 if quick else 16, (len(hists) + chunk - 1) // chunk)
     argvs, traces = [], []
     for k in range(shards):
         part = hists[k::shards]
@@ -101,14 +105,26 @@ def run(ctx):
         json.dump(part, open(sp, "w"))
         tp = os.path.join(ctx.scratch, "trace%d.ndjson" % k)
         traces.append(tp)
+        nrand = (6 if quick else 40) if k < (8 if quick else 16) else 0
         argvs.append([drv, "--script", sp, "--out", tp, "--scratch", os.path.join(ctx.scratch, "stores%d" % k),
-                      "--random", str(6 if quick else 40), "--len", str(40 if quick else 80), "--salt", str(k)])
+                      "--random", str(nrand), "--len", str(40 if quick else 80), "--salt", str(k)])
     outs = ctx.run_parallel(argvs)
     calls = sum(int(o.split("calls=")[1].split()[0]) for o in outs)
     nhist = sum(int(o.split("histories=")[1].split()[0]) for o in outs)
     # 3. judge every trace against the specification
     total_events, tags = 0, {}
     samples = []
+    # fewer, larger TLC runs: the chunk traces are concatenated (every history starts with a Reset)
+    merged = []
+    per = max(1, len(traces) // (8 if quick else 16))
+    for i in range(0, len(traces), per):
+        mp = os.path.join(ctx.scratch, "merged%d.ndjson" % (i // per))
+        with open(mp, "w") as out:
+            for tp in traces[i:i + per]:
+                with open(tp) as f:
+                    out.write(f.read())
+        merged.append(mp)
+    traces = merged
     for tp in traces:
         n, bad = ctx.validate_trace("GroupChainTrace", tp)
         total_events += n
